@@ -1,18 +1,17 @@
 CONSTANTS
-  NP = 2
-  NA = 1
-  Quick = TRUE
+  MaxVals = 2
+  Deep = FALSE
   PNames <- MC_PNames
   ANames <- MC_ANames
   PRates <- MC_PRates
   ARates <- MC_ARates
-  MaxFrames = 2
-  MaxPts = 2
-  MaxCh = 1
+  MaxFrames = 0
+  MaxPts = 0
+  MaxCh = 0
   FrameKinds <- MC_FrameKinds
   ColKinds <- MC_ColKinds
   Tags <- MC_Tags
-  IdxSlack = 2
+  IdxSlack = 0
   UserParams <- MC_UserParams
   LockNames <- MC_LockNames
   CallerIds <- MC_CallerIds
@@ -24,11 +23,9 @@ VIEW View
 INVARIANT MandInv
 INVARIANT AgreePointsInv
 INVARIANT AgreeFramesInv
-INVARIANT AgreeAnalogsInv
 INVARIANT AgreeRateInv
-INVARIANT AgreeLabelsInv
-INVARIANT ConformingAccepted
+INVARIANT ShapeRule
 PROPERTY RefusedUnchanged
-PROPERTY FrameStoreOK
-PROPERTY ColumnsOK
+PROPERTY ParamEditOK
+PROPERTY LockOK
 CHECK_DEADLOCK FALSE
